@@ -59,7 +59,25 @@ func c19Primitives() []variant.Value {
 		variant.Date(0), variant.Date(-1), variant.Time(86399999999), variant.Timestamp(-1), variant.TimestampNTZ(1), variant.TimestampNanos(math.MaxInt64), variant.TimestampNTZNanos(0),
 		variant.UUID(u),
 		variant.Decimal4(12345, 2), variant.Decimal4(-1, 0), variant.Decimal8(1<<40, 3), variant.Decimal16(d16, 2), variant.Decimal16(d16b, 0),
+		// decimals around the sign bit of every byte length (two's complement, any storage width)
+		variant.Decimal4(200, 2), variant.Decimal4(-200, 2), variant.Decimal4(127, 2), variant.Decimal4(-128, 2), variant.Decimal4(0, 2),
+		variant.Decimal8(200, 3), variant.Decimal8(-129, 3), variant.Decimal8(32768, 3), variant.Decimal8(-32769, 3),
+		variant.Decimal16(dec16(200), 2), variant.Decimal16(dec16(-200), 2), variant.Decimal16(dec16(255), 2), variant.Decimal16(dec16(-129), 2),
+		variant.Decimal16(dec16(128), 2), variant.Decimal16(dec16(32768), 2), variant.Decimal16(dec16(-32769), 2), variant.Decimal16(dec16(0), 2), variant.Decimal16(dec16(-1), 2),
+		variant.Decimal16(dec16(math.MaxInt64), 2), variant.Decimal16(dec16(math.MinInt64), 2),
 	}
+}
+
+// dec16: v as a 16-byte little-endian two's complement integer.
+func dec16(v int64) (out [16]byte) {
+	for i := range out {
+		if i < 8 {
+			out[i] = byte(uint64(v) >> (8 * i))
+		} else if v < 0 {
+			out[i] = 0xff
+		}
+	}
+	return out
 }
 
 // core primitives used inside containers
@@ -137,6 +155,15 @@ func c19ValueChunks(thorough bool) [][]variant.Value {
 		kv = append(kv, fmt.Sprintf("key%03d", i), variant.Int8(int8(i)))
 	}
 	big = append(big, obj(kv...), obj(kv[:510]...))
+	// an object holding an object with many fields, between other fields (the
+	// encoder's scratch space grows while the outer object is open)
+	for _, n := range []int{40, 300, 5000} {
+		var nkv []any
+		for i := 0; i < n; i++ {
+			nkv = append(nkv, fmt.Sprintf("n%04d", i), variant.Int64(int64(i)))
+		}
+		big = append(big, obj("a", variant.Int64(1), "b", obj(nkv...), "zz", variant.String("after"), "zzz", obj("a", variant.Bool(true))))
+	}
 	big = append(big, variant.String(strings.Repeat("y", 65536)), arr(variant.String(strings.Repeat("z", 70000)), variant.Int8(1)))
 	chunks = append(chunks, big)
 	return chunks
@@ -164,6 +191,10 @@ func c19Schemas() []c19Schema {
 		s("timestamp", func() parquet.Node { return parquet.Timestamp(parquet.Microsecond) }),
 		s("uuid", func() parquet.Node { return parquet.UUID() }),
 		s("decimal(2:9)", func() parquet.Node { return parquet.Decimal(2, 9, parquet.Int32Type) }),
+		s("decimal(3:18,int64)", func() parquet.Node { return parquet.Decimal(3, 18, parquet.Int64Type) }),
+		s("decimal(2:38,bytes)", func() parquet.Node { return parquet.Decimal(2, 38, parquet.ByteArrayType) }),
+		s("decimal(2:38,fixed16)", func() parquet.Node { return parquet.Decimal(2, 38, parquet.FixedLenByteArrayType(16)) }),
+		s("list<decimal(2:38,bytes)>", func() parquet.Node { return parquet.List(parquet.Decimal(2, 38, parquet.ByteArrayType)) }),
 		s("object{a:int64}", func() parquet.Node { return parquet.Group{"a": parquet.Int(64)} }),
 		s("object{a:int64,b:string}", func() parquet.Node { return parquet.Group{"a": parquet.Int(64), "b": parquet.String()} }),
 		s("object{a:string,b:bool}", func() parquet.Node {
@@ -859,7 +890,7 @@ func init() {
 	Register(&engine.Prop{
 		ID:    "C19",
 		Level: "exploration",
-		Rule: "value trees by grammar (37 primitives covering all 21 kinds at width / length edges; all arrays of <=2 elements over an 8-value core; all objects over fields {a, b, zz} each absent or one of 4 core values, unsorted insertion order; 2-level nestings incl. a key shared at two depths; size edges: 255/256 elements, 255/256 keys, 64 KiB / 70 KB strings) through (1) Encode/Decode, the streaming Builder and Marshal/Unmarshal; (2) 23 shredding schemas (unshredded, 13 primitive typed_values, objects with shredded/unshredded fields, nested objects, lists of primitives / objects / lists) x 5 write paths (GenericWriter, GenericBuffer+WriteRowGroup, WriteRows(Deconstruct), VariantColumnWriter.WriteValue, VariantColumnWriter events with shared FieldRefs) x 3 read paths (converted to unshredded, through the file schema, NewReader with a Variant schema); (3) all sequences of <=4 (5 thorough) operations from {create cursor a (int64), b (string), ok (boolean), x (a field the schema does NOT shred, read through the leftovers), Next(3), Next(10), SeekToRow(0|7|25)} on a VariantReader over a partially shredded object column of several pages; " +
+		Rule: "value trees by grammar (57 primitives covering all 21 kinds at width / length edges, decimals around the sign bit of every byte length; all arrays of <=2 elements over an 8-value core; all objects over fields {a, b, zz} each absent or one of 4 core values, unsorted insertion order; 2-level nestings incl. a key shared at two depths; size edges: 255/256 elements, 255/256 keys, 64 KiB / 70 KB strings, an object of 40 / 300 / 5000 fields nested between the fields of another) through (1) Encode/Decode, the streaming Builder and Marshal/Unmarshal; (2) 27 shredding schemas (unshredded, 16 primitive typed_values incl. decimals stored as int32 / int64 / byte array / fixed 16, objects with shredded/unshredded fields, nested objects, lists of primitives / objects / lists) x 5 write paths (GenericWriter, GenericBuffer+WriteRowGroup, WriteRows(Deconstruct), VariantColumnWriter.WriteValue, VariantColumnWriter events with shared FieldRefs) x 3 read paths (converted to unshredded, through the file schema, NewReader with a Variant schema); (3) all sequences of <=4 (5 thorough) operations from {create cursor a (int64), b (string), ok (boolean), x (a field the schema does NOT shred, read through the leftovers), Next(3), Next(10), SeekToRow(0|7|25)} on a VariantReader over a partially shredded object column of several pages; " +
 			"evaluation = one value or one read path; non-trivial = every (schema, write path, chunk) / history",
 		Assumptions: []string{"equality is variant.Value.Equal (structural); every value is written raw (metadata, value bytes) so that all 21 kinds take part"},
 		Bound:       func(string) int { return 0 },
